@@ -76,6 +76,7 @@ structure Conn where
   hostIdentity : String := ""
   originHost : String := ""
   lastRead : Nat
+  established : Nat := 0          -- `_established`
   lastDwr : Nat := 0
   hbh : Nat                       -- hop-by-hop generator state
   authApps : List Nat := []
@@ -641,7 +642,7 @@ def dispatchMessage (s : St) (cid : Nat) (m : AMsg) (info : MsgInfo) : St :=
       else if c.dir == .recv && !m.isRequest then s
       else if c.dir == .send && m.isRequest then s
       else receiveMessage s cid m info
-    else if Config.gateClosing && (c.state == .closing || c.state == .closed) then s
+    else if Config.gateClosing && (c.state == .closing || c.state == .closed || c.state == .connecting) then s
     else receiveMessage s cid m info
 
 /-- `_check_timers(conn)`. -/
@@ -660,8 +661,9 @@ def checkTimers (s : St) (cid : Nat) : St :=
       let cea : Nat := pick (peer.bind (fun p => p.ceaTo)) s.cfg.cea
       let cer : Nat := pick (peer.bind (fun p => p.cerTo)) s.cfg.cer
       if c.state == .connected then
-        if c.dir == .send && Nat.blt cea (s.now - c.lastRead) then closeConnectionSocket s cid .failCe
-        else if c.dir == .recv && Nat.blt cer (s.now - c.lastRead) then closeConnectionSocket s cid .failCe
+        let since := if Config.ceTimeoutFromEstablished then s.now - c.established else s.now - c.lastRead
+        if c.dir == .send && Nat.blt cea since then closeConnectionSocket s cid .failCe
+        else if c.dir == .recv && Nat.blt cer since then closeConnectionSocket s cid .failCe
         else s
       else if !c.state.isReady then s
       else if c.state == .waitDwa then
@@ -682,7 +684,7 @@ def connectToPeer (s : St) (pi : Nat) : St :=
       let s := { s with dialPlan := s.dialPlan.drop 1 }
       let cid := s.conns.length
       let c : Conn := { id := cid, dir := .send, state := .connecting, nodeName := p.name,
-                        originHost := s.cfg.host, lastRead := s.now, hbh := s.nextHbhSeed }
+                        originHost := s.cfg.host, lastRead := s.now, established := s.now, hbh := s.nextHbhSeed }
       let s := { s with nextHbhSeed := s.nextHbhSeed + 1000 }
       let (s, _) := addPeerConnection s c
       let s := s.emit (.dialled pi)
